@@ -277,6 +277,7 @@ type scen struct {
 	tor2    *vh.Torrent // twin torrent (nil if none)
 	addr2   string
 	stats   map[string]int
+	grow    *growState // scenario family "grow" (grow.go): the session under test downloads while it uploads
 }
 
 func (s *scen) emit(e ev) {
@@ -372,6 +373,7 @@ func (l *leecher) reader(conn *vh.Conn, c int, done chan struct{}) {
 			return
 		}
 		l.lastRx.Store(time.Now().UnixNano())
+		var reply *vh.Msg
 		s.mu.Lock()
 		switch m.ID {
 		case vh.MsgKeepAlive:
@@ -386,6 +388,13 @@ func (l *leecher) reader(conn *vh.Conn, c int, done chan struct{}) {
 		case vh.MsgAllowedFast:
 			l.af = append(l.af, m.Index)
 			s.emit(ev{"op": "AF", "c": c, "i": sat(m.Index)})
+		case vh.MsgRequest:
+			// only a session that downloads asks us for anything (family grow): the feeder answers with ground truth
+			s.emit(ev{"op": "Other", "c": c, "kind": m.Name()})
+			reply = l.feedLocked(m, c)
+		case vh.MsgNotInterested:
+			s.emit(ev{"op": "Other", "c": c, "kind": m.Name()})
+			l.rainLostInterestLocked()
 		case vh.MsgReject:
 			s.emit(ev{"op": "Reject", "c": c, "i": sat(m.Index), "b": sat(m.Begin), "n": sat(m.Length)})
 			s.count("rx_reject")
@@ -411,6 +420,9 @@ func (l *leecher) reader(conn *vh.Conn, c int, done chan struct{}) {
 			s.emit(ev{"op": "Other", "c": c, "kind": m.Name()})
 		}
 		s.mu.Unlock()
+		if reply != nil {
+			conn.Send(*reply)
+		}
 	}
 }
 
@@ -429,6 +441,9 @@ func (l *leecher) send(op string, m vh.Msg) bool {
 		if op == "Request" {
 			e["unchoked"] = l.unch.Load()
 		}
+	}
+	if op == "Other" {
+		e["kind"] = "tx-" + m.Name()
 	}
 	s.emit(e)
 	s.mu.Unlock()
@@ -636,6 +651,10 @@ func (l *leecher) run(wg *sync.WaitGroup) {
 	s := l.s
 	if s.style == "keysweep" {
 		l.runSweep()
+		return
+	}
+	if s.style == "grow" {
+		l.runGrow()
 		return
 	}
 	g := newReqGen(s.tor, int(s.sc.CB), l.rng)
@@ -939,6 +958,9 @@ func runScenario(s *scen, self string) error {
 		"maxblk": maxBlk, "maxq": s.sc.MaxReqIn, "cb": int(s.sc.CB), "nconn": s.maxConn, "layout": s.tor.Name, "style": s.style,
 		"cachesize": int(s.sc.CacheSize), "ttlms": s.sc.TTLms, "nleech": s.nleech, "rainhave": rd.Have, "unit": s.sc.Unit,
 		"cfg": string(js), "seed": int(s.seed), "drvseed": int(s.drvSeed), "reqs": s.nreq0}
+	if s.grow != nil {
+		init["feed"], init["never"], init["feeder"], init["late"], init["fsets"] = s.grow.feed, s.grow.never, s.grow.feeder, s.grow.late, s.grow.fsets
+	}
 	s.events = append(s.events, init)
 	// watchdog for the child: a crash ends the scenario
 	var crashOnce sync.Once
@@ -1009,6 +1031,10 @@ func makeScenario(id int, seed int64, nreq int) *scen {
 		MaxReqIn: 250, Unchoked: 3, Optimistic: 1, AFSet: 10}
 	s := &scen{id: id, sc: sc, style: style, nleech: 1, nreq: nreq, maxConn: 48, seed: seed*1000 + int64(id), stats: map[string]int{},
 		drvSeed: seed, nreq0: nreq}
+	if id >= growFirstID {
+		style = "grow"
+		makeGrow(s, rng)
+	}
 	tor := buildTorrent(&s.sc)
 	if style == "partial" || style == "choked" {
 		// a partial seed needs pieces to miss, a choked peer needs pieces outside its allowed-fast set
@@ -1092,6 +1118,9 @@ func makeScenario(id int, seed int64, nreq int) *scen {
 	}
 	if style == "choked" {
 		s.fastOf[0], s.fastOf[1] = true, false
+	}
+	if style == "grow" {
+		s.fastOf[0] = true
 	}
 	s.name = fmt.Sprintf("%s/cb%d/%s/cs%d/ttl%d", style, cb, s.tor.Name, s.sc.CacheSize, s.sc.TTLms)
 	return s
